@@ -1082,6 +1082,17 @@ void Parser::ParserImpl::loadConnection(const ModelPtr &model, const XmlNodePtr 
         attribute = attribute->next();
     }
 
+    if (mParsing1XVersion && connectionId.empty()) {
+        // In CellML 1.X the connection element itself can carry the identifier.
+        XmlAttributePtr connectionAttribute = node->firstAttribute();
+        while (connectionAttribute != nullptr) {
+            if (isIdAttribute(connectionAttribute, true)) {
+                connectionId = connectionAttribute->value();
+            }
+            connectionAttribute = connectionAttribute->next();
+        }
+    }
+
     // Check that both components were specified and found.
     if (!component1Attribute) {
         auto issue = Issue::IssueImpl::create();
